@@ -6,7 +6,9 @@ usage: tools/seed_matrix.py [ids...]"""
 import json, os, re, subprocess, sys, glob, shutil
 
 VERIF = os.path.dirname(os.path.dirname(os.path.abspath(__file__)))
-WT = "/tmp/seedrun"
+WT = os.environ.get("MATRIX_WT", "/tmp/seedrun")
+CACHE = os.environ.get("MATRIX_CACHE", "/tmp/verif-cache-matrix")
+OUT = os.environ.get("MATRIX_OUT")
 PIDS = [f"C{n:02d}" for n in range(1, 21)]
 
 
@@ -25,7 +27,7 @@ def run_all(patch, pids=PIDS):
     r = sh(f"git apply {patch}", cwd=WT)
     if r.returncode != 0:
         return {"error": "patch does not apply: " + r.stderr[-200:]}
-    env = dict(os.environ, VERIF_REPO=WT, VERIF_NO_EVIDENCE="1", VERIF_CACHE="/tmp/verif-cache-matrix")
+    env = dict(os.environ, VERIF_REPO=WT, VERIF_NO_EVIDENCE="1", VERIF_CACHE=CACHE)
     res = {}
     sh("python3 analysis/extract.py A B C D E", cwd=VERIF, env=env)  # all configurations concurrently
     for pid in pids:
@@ -43,7 +45,7 @@ def main():
     for p in sorted(glob.glob(os.path.join(VERIF, "mutants", "*.patch"))):
         items.append((os.path.basename(p)[:-6], p, "mutant"))
     want = set(sys.argv[1:])
-    mpath = os.path.join(VERIF, "seeded", "MATRIX.json")
+    mpath = OUT or os.path.join(VERIF, "seeded", "MATRIX.json")
     matrix = json.load(open(mpath)) if os.path.exists(mpath) else {}
     for name, patch, kind in items:
         if want and name not in want:
